@@ -572,7 +572,7 @@ func (f *FnVC) trIndex(env *Env, x SIndex) TV {
 	switch u := a.Ty.Underlying().(type) {
 	case *types.Slice:
 		eh := f.elemHeap(u.Elem())
-		tv = f.tv(sSel(sSel(env.st.get(eh), "(s_ref "+a.T+")"), sAdd("(s_off "+a.T+")", i.T)), u.Elem())
+		tv = f.tv(sSel(env.st.projGet(eh, a.T), sIdx("(s_off "+a.T+")", i.T)), u.Elem())
 	case *types.Array:
 		tv = f.tv(sSel(a.T, i.T), u.Elem())
 	case *types.Pointer:
@@ -757,6 +757,20 @@ func (f *FnVC) trCall(env *Env, x SCall) TV {
 		}
 		f.declFun("closure_fn", []string{"Int"}, "Int")
 		return TV{sEq(sApp("closure_fn", a.T), f.fnTag(name.Val+"$bound")), boolTy, "Bool"}
+	case "addrOf":
+		// address of a package-level variable
+		id2, ok := x.Args[0].(SIdent)
+		if !ok {
+			sfail("addrOf: expected a package-level variable name")
+		}
+		if p, ok := f.g.ssaPkgs[env.pkg]; ok {
+			if m, ok := p.Members[id2.Name]; ok {
+				if g, ok := m.(*ssa.Global); ok {
+					return f.val(g)
+				}
+			}
+		}
+		sfail("addrOf: unknown package-level variable %s", id2.Name)
 	case "deref":
 		a := arg(0)
 		pt, ok := a.Ty.Underlying().(*types.Pointer)
@@ -901,6 +915,21 @@ func (f *FnVC) applySpecFun(env *Env, sf *SpecFun, args []TV) TV {
 		as = append(as, a2.T)
 	}
 	for _, h := range info.heaps {
+		if i := strings.Index(h, "|"); i >= 0 {
+			// projection: backing array of a slice parameter
+			pn := h[i+1:]
+			found := false
+			for k, p := range sf.Params {
+				if "a_"+p.Name == pn {
+					as = append(as, env.st.projGet(h[:i], as[k]))
+					found = true
+				}
+			}
+			if !found {
+				sfail("spec fun %s: internal error: projection on unknown parameter %s", sf.Name, pn)
+			}
+			continue
+		}
 		as = append(as, env.st.get(h))
 	}
 	return TV{sApp(info.name, as...), rty, rso}
@@ -964,6 +993,12 @@ func (f *FnVC) defineRecSpecFun(sf *SpecFun) *specFunInfo {
 		ps = append(ps, "(a_"+p.Name+" "+f.specParamTV(sf, i, "").Sort+")")
 	}
 	for _, h := range info.heaps {
+		if i := strings.Index(h, "|"); i >= 0 {
+			so := f.heapSort[h[:i]]
+			inner := strings.TrimSuffix(strings.TrimPrefix(so, "(Array Int "), ")")
+			ps = append(ps, "("+f.sym(h[:i]+"@p@"+h[i+1:])+" "+inner+")")
+			continue
+		}
 		ps = append(ps, "("+f.sym(h+"@p")+" "+f.heapSort[h]+")")
 	}
 	f.specDefs = append(f.specDefs, fmt.Sprintf("(define-fun-rec %s (%s) %s %s)", info.name, strings.Join(ps, " "), rso, body))
@@ -1116,7 +1151,7 @@ func (f *FnVC) litElems(a, b string) string {
 	arr, off, n := sexpString(l[1]), sexpString(l[2]), sexpString(l[3])
 	cs := []string{sEq(n, fmt.Sprint(len(lit)))}
 	for i := 0; i < len(lit); i++ {
-		cs = append(cs, sEq(sSel(arr, sAdd(off, fmt.Sprint(i))), fmt.Sprint(lit[i])))
+		cs = append(cs, sEq(sSel(arr, sIdx(off, fmt.Sprint(i))), fmt.Sprint(lit[i])))
 	}
 	return sAnd(cs...)
 }
